@@ -14,3 +14,5 @@ import LexVerif.Model.Ops.WriteInt
 import LexVerif.Model.Iter
 import LexVerif.Model.ParseNumber
 import LexVerif.Model.Ops.ParseFloat
+import LexVerif.Spec.Grammar
+import LexVerif.Model.Ops.GrammarSpec
